@@ -51,6 +51,9 @@ type c09Event struct {
 	Precond   bool     `json:"precond"`
 	doc       string
 	rendered  string
+	// countZero: the only difference after reload is a device request whose explicit `count: 0` came back as the default
+	// (the known finding C09-device-count-zero, whichever table the model came from)
+	countZero bool
 }
 
 // stripNestedExtensions clears every Extensions field below the top level (the JSON form omits them by design).
@@ -286,6 +289,9 @@ func C09(c *core.Ctx) {
 							a, b = stripNestedExtensions(p0), stripNestedExtensions(p1)
 						}
 						ev.Diff = partsDiff(a, b)
+						if len(ev.Diff) > 0 && strings.Contains(sd.doc, `"count": 0`) && len(partsDiff(c09CountZeroAsDefault(a), b)) == 0 {
+							ev.countZero = true
+						}
 						y2, err2 := render(p1)
 						ev.Stable = err2 == nil && string(y2) == string(y1)
 					}
@@ -328,6 +334,9 @@ func C09(c *core.Ctx) {
 		case "differs":
 			detail += fmt.Sprintf(": parts %v differ after reload", e.Diff)
 		}
+		if e.countZero && which == "differs" {
+			e.Source = "render:device request count zero"
+		}
 		c.Report(core.Finding{Sig: which + ":" + e.Format + ":" + e.Source, Detail: detail, Replay: map[string]interface{}{"document": e.doc, "variant": e.Variant, "format": e.Format, "rendering": e.rendered}})
 	}
 	c.AddTraces(int64(len(events)))
@@ -348,4 +357,35 @@ func C09(c *core.Ctx) {
 	}
 	c.Logf("%d models, %d loaded variants, %d round trips; %d/%d service fields non-zero at least once", len(docs), loaded, len(events), len(fieldSeen), reflect.TypeOf(types.ServiceConfig{}).NumField())
 	c.Set("rule", "a case is one round trip Load -> Marshal -> Load -> Marshal of a model from the specification's tables (or the repository's full example), in YAML and in JSON, with default options (and without normalisation / path resolution for the custom-marshaller table); all non-trivial")
+}
+
+// c09CountZeroAsDefault: the project with every device request that asks for zero devices asking for all of them (-1), which is
+// what its rendering reloads as.
+func c09CountZeroAsDefault(p *types.Project) *types.Project {
+	fix := func(ds []types.DeviceRequest) []types.DeviceRequest {
+		out := append([]types.DeviceRequest{}, ds...)
+		for i := range out {
+			if out[i].Count == 0 && len(out[i].IDs) == 0 {
+				out[i].Count = -1
+			}
+		}
+		return out
+	}
+	q, err := p.WithServicesTransform(func(_ string, s types.ServiceConfig) (types.ServiceConfig, error) {
+		if len(s.Gpus) > 0 {
+			s.Gpus = fix(s.Gpus)
+		}
+		if s.Deploy != nil && s.Deploy.Resources.Reservations != nil && len(s.Deploy.Resources.Reservations.Devices) > 0 {
+			d := *s.Deploy
+			r := *d.Resources.Reservations
+			r.Devices = fix(r.Devices)
+			d.Resources.Reservations = &r
+			s.Deploy = &d
+		}
+		return s, nil
+	})
+	if err != nil {
+		return p
+	}
+	return q
 }
